@@ -10,14 +10,14 @@
 From Coq Require Import ZArith List Bool Lia ZifyBool Permutation.
 From Coq Require PrimFloat.
 From Centro Require Import Base.PropFloat Model.PropHeap Model.Propagate Spec.PropCheck Proofs.PropKey
-     Proofs.PropHeapInv Proofs.PropHeapKey Proofs.PropGrid Proofs.PropDijkstra Proofs.PropLabels.
+     Proofs.PropHeapInv Proofs.PropHeapKey Proofs.PropGrid Proofs.PropDijkstra Proofs.PropLabels Proofs.PropFuel.
 Import ListNotations.
 Open Scope Z_scope.
 Ltac Zify.zify_post_hook ::= Z.to_euclidean_division_equations.
 
 Definition bitsD (x : float) : Z := bits_of_float x.
 Definition okF (x : float) : Prop := ok64 (bits_of_float x).
-Definition mkrow (b l : Z) (v : Z * Z) : row := [most_sig b; least_sig Full64 b; l; fst v; snd v].
+Definition mkrow (key : keymode) (b l : Z) (v : Z * Z) : row := [most_sig b; least_sig key b; l; fst v; snd v].
 
 Lemma okF_zero : okF PrimFloat.zero.
 Proof. unfold okF, ok64. vm_compute. split; discriminate. Qed.
@@ -26,29 +26,12 @@ Proof. vm_compute. reflexivity. Qed.
 Lemma not_okF_neg_one : ~ okF neg_one.
 Proof. unfold okF, ok64. vm_compute. intros [_ H]. apply H. reflexivity. Qed.
 
-Lemma hkey_mkrow : forall b l v, ok64 b -> hkey (mkrow b l v) = (b / two32, b mod two32).
-Proof.
-  intros b l v [H0 H1]. unfold hkey, mkrow, most_sig, least_sig, bits_inf, two32, two31 in *. cbn [nth].
-  assert (E : (b / 4294967296 >=? 2147483648) = false) by lia. rewrite E. reflexivity.
-Qed.
-Lemma le_key_mkrow : forall a b l l' v v', ok64 a -> ok64 b ->
-  (le_key (mkrow a l v) (mkrow b l' v') <-> a <= b).
-Proof.
-  intros a b l l' v v' Ha Hb. unfold le_key. rewrite (hkey_mkrow a l v Ha), (hkey_mkrow b l' v' Hb).
-  unfold lexle2, ok64, bits_inf, two32 in *. cbn [fst snd]. lia.
-Qed.
 Lemma pair_eq_dec : forall a b : Z * Z, {a = b} + {a <> b}.
 Proof. decide equality; apply Z.eq_dec. Qed.
-Lemma wf5_mkrow : forall b l v, wf5 (mkrow b l v).
+Lemma wf5_mkrow : forall k b l v, wf5 (mkrow k b l v).
 Proof. reflexivity. Qed.
-Lemma mkrow_inj : forall a b l l' v v', ok64 a -> ok64 b -> mkrow a l v = mkrow b l' v' -> a = b /\ l = l' /\ v = v'.
-Proof.
-  intros a b l l' [v1 v2] [w1 w2] Ha Hb H.
-  assert (Hk : hkey (mkrow a l (v1, v2)) = hkey (mkrow b l' (w1, w2))) by (rewrite H; reflexivity).
-  rewrite (hkey_mkrow _ _ _ Ha), (hkey_mkrow _ _ _ Hb) in Hk.
-  unfold mkrow in H. cbn [fst snd] in H. inversion H. inversion Hk.
-  unfold ok64, bits_inf, two32 in *. repeat split; try lia; try reflexivity; try (f_equal; assumption).
-Qed.
+Lemma mkrow_pixel : forall k k' a b l l' v v', mkrow k a l v = mkrow k' b l' v' -> v = v'.
+Proof. intros k k' a b l l' [v1 v2] [w1 w2] H. unfold mkrow in H. cbn [fst snd] in H. inversion H. reflexivity. Qed.
 
 Section Opt.
 Variable image : list (list float).
@@ -56,6 +39,9 @@ Variable mask : list (list bool).
 Variables m n : Z.
 Variable weight : float.
 Variable labels : list (list Z).
+Variable key : keymode.             (* layout of the heap key *)
+Variable EV : Z -> Prop.             (* class of bit patterns on which the key reflects order *)
+Definition M : nat := (Z.to_nat m * Z.to_nat n)%nat.
 
 Notation labv := (labv labels).
 Notation maskv := (maskv mask).
@@ -70,16 +56,22 @@ Hypothesis F_mono : forall s x y, okF s -> okF x -> okF y -> bitsD x <= bitsD y 
 Hypothesis W_ok : forall u v, inr u -> inr v -> adj8 u v -> okF (stepF u v).
 Hypothesis L_nonneg : forall v, inr v -> 0 <= labv v.
 Hypothesis Hshape : shape labels m n.
+Hypothesis K_le : forall a b l l' v v', ok64 a -> ok64 b -> EV a -> EV b ->
+  (le_key (mkrow key a l v) (mkrow key b l' v') <-> a <= b).
+Hypothesis E0 : EV 0.
 
 (* x = cost of a mask path from a masked seed labelled l to v *)
-Inductive reachL : Z * Z -> float -> Z -> Prop :=
-| rl_seed : forall s, inr s -> 0 < labv s -> maskv s -> reachL s PrimFloat.zero (labv s)
-| rl_step : forall u v x l, reachL u x l -> adj8 u v -> inr v -> maskv v ->
-                            reachL v (PrimFloat.add (stepF u v) x) l.
+Inductive reachL : Z * Z -> float -> Z -> nat -> Prop :=
+| rl_seed : forall s, inr s -> 0 < labv s -> maskv s -> reachL s PrimFloat.zero (labv s) O
+| rl_step : forall u v x l k, reachL u x l k -> adj8 u v -> inr v -> maskv v ->
+                              reachL v (PrimFloat.add (stepF u v) x) l (S k).
 
-Lemma reachL_facts : forall v x l, reachL v x l -> inr v /\ maskv v /\ okF x /\ 0 < l.
+(* the key reflects order on the cost of every path of at most m*n steps *)
+Hypothesis H_E : forall v x l k, reachL v x l k -> (k <= M)%nat -> EV (bitsD x).
+
+Lemma reachL_facts : forall v x l k, reachL v x l k -> inr v /\ maskv v /\ okF x /\ 0 < l.
 Proof.
-  induction 1 as [s Hi Hl Hm | u v x l H IH Ha Hi Hm].
+  induction 1 as [s Hi Hl Hm | u v x l k H IH Ha Hi Hm].
   - split; [exact Hi|]. split; [exact Hm|]. split; [apply okF_zero | exact Hl].
   - destruct IH as [Hu [_ [Hx Hl]]]. split; [exact Hi|]. split; [exact Hm|]. split; [|exact Hl].
     apply F_add; [apply W_ok; assumption | exact Hx].
@@ -88,16 +80,18 @@ Qed.
 Notation Dv dist v := (get2 PrimFloat.zero dist (fst v) (snd v)).
 Notation Lv lab v := (get2 0 lab (fst v) (snd v)).
 
-Definition rowOK (kstar : Z) (dist : list (list float)) (r : row) : Prop :=
-  exists b l v x, r = mkrow b l v /\ ok64 b /\ 0 < l /\ inr v /\ maskv v /\
-                  okF (Dv dist v) /\ bitsD (Dv dist v) <= b /\ kstar <= b /\ bitsD x = b /\ reachL v x l.
+(* c = number of pixels not yet finalised: a row pushed now has a witness path of at most M - c steps *)
+Definition rowOK (kstar : Z) (c : nat) (dist : list (list float)) (r : row) : Prop :=
+  exists b l v x k, r = mkrow key b l v /\ ok64 b /\ 0 < l /\ inr v /\ maskv v /\
+                    okF (Dv dist v) /\ bitsD (Dv dist v) <= b /\ kstar <= b /\ bitsD x = b /\
+                    reachL v x l k /\ (k + c <= M)%nat.
 
 Definition nbr_ok (dist : list (list float)) (u w : Z * Z) : Prop :=
   okF (Dv dist w) /\ bitsD (Dv dist w) <= bitsD (PrimFloat.add (stepF u w) (Dv dist u)).
 
-Definition fin_ok (kstar : Z) (lab : list (list Z)) (dist : list (list float)) (u : Z * Z) : Prop :=
+Definition fin_ok (kstar : Z) (c : nat) (lab : list (list Z)) (dist : list (list float)) (u : Z * Z) : Prop :=
   maskv u /\ okF (Dv dist u) /\ bitsD (Dv dist u) <= kstar /\
-  (exists x, bitsD x = bitsD (Dv dist u) /\ reachL u x (Lv lab u)).
+  (exists x k, bitsD x = bitsD (Dv dist u) /\ reachL u x (Lv lab u) k /\ (S k + c <= M)%nat).
 
 Record INV (kstar : Z) (lab : list (list Z)) (dist : list (list float)) (hp : heap) : Prop := {
   i_k0 : 0 <= kstar;
@@ -106,18 +100,27 @@ Record INV (kstar : Z) (lab : list (list Z)) (dist : list (list float)) (hp : he
   i_lab : forall v, inr v -> 0 <= Lv lab v;
   i_b1 : forall v, inr v -> Dv dist v = neg_one \/ okF (Dv dist v);
   i_bs : forall v, inr v -> 0 < labv v -> Dv dist v = PrimFloat.zero;
-  i_rows : Forall (rowOK kstar dist) (rows hp);
+  i_even : forall v, inr v -> okF (Dv dist v) -> EV (bitsD (Dv dist v));
+  i_rows : Forall (rowOK kstar (count0 lab) dist) (rows hp);
   i_pend : forall v, inr v -> maskv v -> Lv lab v = 0 -> okF (Dv dist v) ->
-                     exists l, In (mkrow (bitsD (Dv dist v)) l v) (rows hp);
-  i_fin : forall u, inr u -> Lv lab u <> 0 -> fin_ok kstar lab dist u;
+                     exists l, In (mkrow key (bitsD (Dv dist v)) l v) (rows hp);
+  i_fin : forall u, inr u -> Lv lab u <> 0 -> fin_ok kstar (count0 lab) lab dist u;
   i_nbr : forall u w, inr u -> Lv lab u <> 0 -> adj8 u w -> inr w -> maskv w -> nbr_ok dist u w;
   i_heap : weak_inv (rows hp)
 }.
 
-Lemma rowOK_wf5 : forall k dist l, Forall (rowOK k dist) l -> Forall wf5 l.
+Lemma rowOK_wf5 : forall k c dist l, Forall (rowOK k c dist) l -> Forall wf5 l.
 Proof.
-  intros k dist l H. apply Forall_forall. intros r Hr.
-  destruct (proj1 (Forall_forall _ _) H r Hr) as [b [l0 [v [x [-> _]]]]]. apply wf5_mkrow.
+  intros k c dist l H. apply Forall_forall. intros r Hr.
+  destruct (proj1 (Forall_forall _ _) H r Hr) as [b [l0 [v [x [k0 [-> _]]]]]]. apply wf5_mkrow.
+Qed.
+Lemma rowOK_E : forall k c dist b l v, rowOK k c dist (mkrow key b l v) -> ok64 b ->
+  exists b', mkrow key b l v = mkrow key b' l v /\ EV b' /\ ok64 b' /\ k <= b'.
+Proof.
+  intros k c dist b l v (b' & l' & v' & x & k0 & Eq & Hb & _ & _ & _ & _ & _ & Hk & Hbx & Hr & Hc) _.
+  exists b'. assert (Hv : v = v') by (eapply mkrow_pixel; exact Eq).
+  assert (Hl : l = l') by (unfold mkrow in Eq; inversion Eq; reflexivity). subst v' l'.
+  split; [exact Eq|]. split; [rewrite <- Hbx; apply (H_E _ _ _ _ Hr); lia|]. split; assumption.
 Qed.
 
 (* ---------- one relaxation ---------- *)
@@ -127,6 +130,7 @@ Variable lab1 : list (list Z).
 Variable u : Z * Z.
 Variable d0 : float.
 Variable l : Z.
+Variable c : nat.                   (* count0 lab1 *)
 Hypothesis Hk0 : 0 <= kstar.
 Hypothesis Hshl : shape lab1 m n.
 Hypothesis Hlab1 : forall v, inr v -> 0 <= Lv lab1 v.
@@ -135,16 +139,17 @@ Hypothesis Hul : Lv lab1 u = l.
 Hypothesis Hl : 0 < l.
 Hypothesis Hd0 : okF d0.
 Hypothesis Hkd : bitsD d0 = kstar.
-Hypothesis Hux : exists x, bitsD x = bitsD d0 /\ reachL u x l.
+Hypothesis Hux : exists x k, bitsD x = bitsD d0 /\ reachL u x l k /\ (S k + c <= M)%nat.
 
 Record PRE (P : Z * Z -> Prop) (dist : list (list float)) (hp : heap) : Prop := {
   p_shd : shape dist m n;
   p_b1 : forall v, inr v -> Dv dist v = neg_one \/ okF (Dv dist v);
   p_bs : forall v, inr v -> 0 < labv v -> Dv dist v = PrimFloat.zero;
-  p_rows : Forall (rowOK kstar dist) (rows hp);
+  p_even : forall v, inr v -> okF (Dv dist v) -> EV (bitsD (Dv dist v));
+  p_rows : Forall (rowOK kstar c dist) (rows hp);
   p_pend : forall v, inr v -> maskv v -> Lv lab1 v = 0 -> okF (Dv dist v) ->
-                     exists l', In (mkrow (bitsD (Dv dist v)) l' v) (rows hp);
-  p_fin : forall u', inr u' -> Lv lab1 u' <> 0 -> fin_ok kstar lab1 dist u';
+                     exists l', In (mkrow key (bitsD (Dv dist v)) l' v) (rows hp);
+  p_fin : forall u', inr u' -> Lv lab1 u' <> 0 -> fin_ok kstar c lab1 dist u';
   p_nbr : forall u' w, inr u' -> Lv lab1 u' <> 0 -> u' <> u -> adj8 u' w -> inr w -> maskv w -> nbr_ok dist u' w;
   p_u : Dv dist u = d0;
   p_dn : forall o, P o -> inr (fst u + fst o, snd u + snd o) -> maskv (fst u + fst o, snd u + snd o) ->
@@ -153,17 +158,17 @@ Record PRE (P : Z * Z -> Prop) (dist : list (list float)) (hp : heap) : Prop := 
 }.
 
 Lemma PRE_weaken : forall (P Q : Z * Z -> Prop) dist hp, (forall o, Q o -> P o) -> PRE P dist hp -> PRE Q dist hp.
-Proof. intros P Q dist hp H [A B C D E F G I J K]. constructor; auto. Qed.
+Proof. intros P Q dist hp H [A B C C' D E' F G I J K]. constructor; auto. Qed.
 
 Lemma eqb_neg_one : PrimFloat.eqb neg_one neg_one = true.
 Proof. vm_compute. reflexivity. Qed.
 
 Lemma relax_opt : forall P dist hp o, In o offsets8 -> PRE P dist hp ->
   PRE (fun o' => o' = o \/ P o')
-      (fst (relax Full64 image mask m n weight lab1 l (fst u) (snd u) d0 (dist, hp) o))
-      (snd (relax Full64 image mask m n weight lab1 l (fst u) (snd u) d0 (dist, hp) o)).
+      (fst (relax key image mask m n weight lab1 l (fst u) (snd u) d0 (dist, hp) o))
+      (snd (relax key image mask m n weight lab1 l (fst u) (snd u) d0 (dist, hp) o)).
 Proof.
-  intros P dist hp o Ho HP. destruct HP as [Hshd Hb1 Hbs Hrows Hpend Hfin Hnbr Hpu Hdn Hheap].
+  intros P dist hp o Ho HP. destruct HP as [Hshd Hb1 Hbs Heven Hrows Hpend Hfin Hnbr Hpu Hdn Hheap].
   unfold relax. cbn [fst snd].
   set (i2 := fst u + fst o). set (j2 := snd u + snd o). set (w := (i2, j2)).
   assert (Hadj : adj8 u w) by (exists o; split; [exact Ho | reflexivity]).
@@ -210,22 +215,25 @@ Proof.
   { intros v Hv Hok. destruct (pair_eq_dec v w) as [->|Hne].
     - rewrite Gsame. split; [exact Hdok|]. rewrite <- Hcur in *. pose proof (Hlow Hok). lia.
     - rewrite (Goth v Hv Hne). split; [exact Hok | lia]. }
-  destruct Hux as [xu [Hxu Hru]]. destruct (reachL_facts _ _ _ Hru) as [_ [Hmu [Hxok _]]].
+  destruct Hux as [xu [ku [Hxu [Hru Hku]]]]. destruct (reachL_facts _ _ _ _ Hru) as [_ [Hmu [Hxok _]]].
   assert (Hbx : bitsD (PrimFloat.add (stepF u w) xu) = bitsD d).
   { unfold d. pose proof (F_mono (stepF u w) xu d0 Hstep Hxok Hd0). pose proof (F_mono (stepF u w) d0 xu Hstep Hd0 Hxok). lia. }
-  assert (Hnew : rowOK kstar dist' (mkrow (bitsD d) l w)).
-  { exists (bitsD d), l, w, (PrimFloat.add (stepF u w) xu). rewrite Gsame.
-    repeat (split; try assumption); try (unfold bitsD in *; lia); try exact Hdok.
-    apply rl_step with (u := u); assumption. }
-  assert (Hold : forall r, rowOK kstar dist r -> rowOK kstar dist' r).
-  { intros r [b [l0 [v [x [E [Hb0 [Hl0 [Hv [Hmv [Hok [Hle [Hkb [Hbx' Hr]]]]]]]]]]]]].
-    destruct (Gle v Hv Hok) as [Hok' Hle']. exists b, l0, v, x. repeat (split; try assumption). lia. }
-  pose proof (heap_multiset_push hp (mkrow (bitsD d) l w)) as Hperm.
+  assert (Hrw : reachL w (PrimFloat.add (stepF u w) xu) l (S ku)) by (apply rl_step with (u := u); assumption).
+  assert (HEd : EV (bitsD d)) by (rewrite <- Hbx; apply (H_E _ _ _ _ Hrw); lia).
+  assert (Hnew : rowOK kstar c dist' (mkrow key (bitsD d) l w)).
+  { exists (bitsD d), l, w, (PrimFloat.add (stepF u w) xu), (S ku). rewrite Gsame.
+    repeat (split; try assumption); try (unfold bitsD in *; lia); try exact Hdok. }
+  assert (Hold : forall r, rowOK kstar c dist r -> rowOK kstar c dist' r).
+  { intros r [b [l0 [v [x [k0 [Eq [Hb0 [Hl0 [Hv [Hmv [Hok [Hle [Hkb [Hbx' [Hr Hcc]]]]]]]]]]]]]]].
+    destruct (Gle v Hv Hok) as [Hok' Hle']. exists b, l0, v, x, k0. repeat (split; try assumption). lia. }
+  pose proof (heap_multiset_push hp (mkrow key (bitsD d) l w)) as Hperm.
   constructor.
   - apply set2_shape; [exact Hshd | destruct Hw; assumption].
   - intros v Hv. destruct (pair_eq_dec v w) as [->|Hne]; [right; rewrite Gsame; exact Hdok|].
     rewrite (Goth v Hv Hne). apply Hb1. exact Hv.
   - intros v Hv Hs. destruct (pair_eq_dec v w) as [->|Hne]; [contradiction|]. rewrite (Goth v Hv Hne). apply Hbs; assumption.
+  - intros v Hv Hok. destruct (pair_eq_dec v w) as [->|Hne]; [rewrite Gsame; exact HEd|].
+    rewrite (Goth v Hv Hne) in *. apply Heven; assumption.
   - eapply Permutation_Forall; [apply Permutation_sym; exact Hperm|]. constructor; [exact Hnew|].
     apply Forall_forall. intros r Hr. apply Hold. exact (proj1 (Forall_forall _ _) Hrows r Hr).
   - intros v Hv Hmv Hlv Hok. destruct (pair_eq_dec v w) as [->|Hne].
@@ -243,18 +251,18 @@ Proof.
     + fold i2 j2 w. rewrite Gsame. split; [exact Hdok | unfold d; lia].
     + destruct (Hdn o' Ho' Hw' Hmw') as [A B]. rewrite Hpu in B.
       destruct (Gle _ Hw' A) as [A' B']. split; [exact A' | lia].
-  - apply (heap_weak_inv_push hp (mkrow (bitsD d) l w)); [eapply rowOK_wf5; exact Hrows | apply wf5_mkrow | exact Hheap].
+  - apply (heap_weak_inv_push hp (mkrow key (bitsD d) l w)); [eapply rowOK_wf5; exact Hrows | apply wf5_mkrow | exact Hheap].
 Qed.
 
 Lemma relax_fold_opt : forall offs P dist hp, incl offs offsets8 -> PRE P dist hp ->
   PRE (fun o' => In o' offs \/ P o')
-      (fst (fold_left (relax Full64 image mask m n weight lab1 l (fst u) (snd u) d0) offs (dist, hp)))
-      (snd (fold_left (relax Full64 image mask m n weight lab1 l (fst u) (snd u) d0) offs (dist, hp))).
+      (fst (fold_left (relax key image mask m n weight lab1 l (fst u) (snd u) d0) offs (dist, hp)))
+      (snd (fold_left (relax key image mask m n weight lab1 l (fst u) (snd u) d0) offs (dist, hp))).
 Proof.
   induction offs as [|o r IH]; intros P dist hp Hi HP; cbn [fold_left].
   - cbn [fst snd]. eapply PRE_weaken; [|exact HP]. intros o [[]|H]; exact H.
   - pose proof (relax_opt P dist hp o (Hi o (or_introl eq_refl)) HP) as H1.
-    destruct (relax Full64 image mask m n weight lab1 l (fst u) (snd u) d0 (dist, hp) o) as [dist1 hp1] eqn:E.
+    destruct (relax key image mask m n weight lab1 l (fst u) (snd u) d0 (dist, hp) o) as [dist1 hp1] eqn:E.
     cbn [fst snd] in H1.
     pose proof (IH _ dist1 hp1 (fun x Hx => Hi x (or_intror Hx)) H1) as H2.
     eapply PRE_weaken; [|exact H2]. cbn beta. intros o' [[->|H]|H]; auto.
@@ -270,75 +278,92 @@ Proof.
   - intros H. pose proof (Permutation_in _ HP H) as [E|E]; [left; symmetry; exact E | right; exact E].
 Qed.
 
+Lemma rowOK_mono : forall k k' c c' dist r, k' <= k -> (c' <= c)%nat -> rowOK k c dist r -> rowOK k' c' dist r.
+Proof.
+  intros k k' c c' dist r Hk Hc (b & l & v & x & k0 & Eq & Hb & Hl & Hv & Hm & Hok & Hle & Hkb & Hbx & Hr & Hcc).
+  exists b, l, v, x, k0. repeat (split; try assumption); lia.
+Qed.
+
 Lemma loop_opt : forall fuel st st' kstar,
   INV kstar (s_lab st) (s_dist st) (s_hp st) ->
-  loop Full64 image mask m n weight fuel st = (st', true) ->
+  loop key image mask m n weight fuel st = (st', true) ->
   exists k', INV k' (s_lab st') (s_dist st') (s_hp st') /\ rows (s_hp st') = [].
 Proof.
   induction fuel as [|f IH]; intros st st' kstar HI HL; cbn [loop] in HL; [discriminate|].
   destruct (rows (s_hp st)) as [|r0 rest] eqn:Hrows.
   - inversion HL. subst st'. exists kstar. split; [exact HI | exact Hrows].
   - assert (Hne : rows (s_hp st) <> []) by (rewrite Hrows; discriminate).
-    destruct HI as [Hk0 Hshl Hshd Hlab Hb1 Hbs Hrw Hpend Hfin Hnbr Hheap].
+    destruct HI as [Hk0 Hshl Hshd Hlab Hb1 Hbs Heven Hrw Hpend Hfin Hnbr Hheap].
     pose proof (heap_multiset_pop (s_hp st) Hne) as HP.
-    destruct (heap_weak_inv_pop (s_hp st) (rowOK_wf5 _ _ _ Hrw) Hheap Hne) as [Hheap1 [_ Hmin]].
+    destruct (heap_weak_inv_pop (s_hp st) (rowOK_wf5 _ _ _ _ Hrw) Hheap Hne) as [Hheap1 [_ Hmin]].
     destruct (heappop (s_hp st)) as [e hp1] eqn:Hpop. cbn [fst snd] in HP, Hheap1, Hmin.
-    assert (HF : Forall (rowOK kstar (s_dist st)) (e :: rows hp1)) by (eapply Permutation_Forall; eassumption).
+    set (c := count0 (s_lab st)) in *.
+    assert (HF : Forall (rowOK kstar c (s_dist st)) (e :: rows hp1)) by (eapply Permutation_Forall; eassumption).
     inversion HF as [|? ? He Hrest]. subst.
-    destruct He as [b [l [v [x [Ee [Hb [Hl [Hv [Hmv [Hok [Hle [Hkb [Hbx Hr]]]]]]]]]]]]].
-    subst e. unfold mkrow in HL. cbn [nth] in HL. fold (mkrow b l v) in *.
+    destruct He as (b & l & v & x & kx & Ee & Hb & Hl & Hv & Hmv & Hok & Hle & Hkb & Hbx & Hr & Hcx).
+    assert (HEb : EV b) by (rewrite <- Hbx; apply (H_E _ _ _ _ Hr); lia).
+    subst e. unfold mkrow in HL. cbn [nth] in HL. fold (mkrow key b l v) in *.
     destruct (get2 0 (s_lab st) (fst v) (snd v) =? 0) eqn:Hz.
     + (* v is finalised now *)
       assert (Hlv0 : Lv (s_lab st) v = 0) by lia.
       destruct (Hpend v Hv Hmv Hlv0 Hok) as [l' Hin'].
       assert (Hbe : b = bitsD (Dv (s_dist st) v)).
-      { pose proof (Hmin _ Hin') as Hm. apply (le_key_mkrow b _ l l' v v Hb Hok) in Hm. unfold bitsD in *. lia. }
+      { pose proof (Hmin _ Hin') as Hm. apply (K_le b _ l l' v v Hb Hok HEb (Heven v Hv Hok)) in Hm. unfold bitsD in *. lia. }
       set (lab1 := set2 (s_lab st) (fst v) (snd v) l) in *.
       set (d0 := Dv (s_dist st) v) in *.
       assert (Gs : Lv lab1 v = l) by (unfold lab1; apply (get2_set2_same m n); [exact Hshl | destruct v; exact Hv]).
       assert (Go : forall a, PropDijkstra.inr m n a -> a <> v -> Lv lab1 a = Lv (s_lab st) a).
       { intros [a1 a2] Ha Hne'. unfold lab1. clear - Ha Hne' Hv Hshl. destruct v as [v1 v2]. cbn [fst snd] in *.
         apply (get2_set2_other m n); try assumption. intros E. apply Hne'. symmetry. exact E. }
-      assert (HPRE : PRE b lab1 v d0 (fun _ => False) (s_dist st) hp1).
+      (* one pixel less to finalise *)
+      assert (Hc1 : (count0 lab1 + 1 = c)%nat).
+      { unfold lab1, set2, c. pose proof (shape_row m n Z (s_lab st) (fst v) Hshl (proj1 Hv)) as Hrl.
+        destruct Hshl as [Hs1 Hs2]. destruct Hv as [Hv1 Hv2].
+        apply count0_upd; [lia|]. apply zeros_upd; [lia | | lia]. unfold get2 in Hlv0. exact Hlv0. }
+      set (c1 := count0 lab1) in *.
+      assert (HPRE : PRE b lab1 v d0 c1 (fun _ => False) (s_dist st) hp1).
       { constructor; try assumption.
         - apply Forall_forall. intros r Hr'. pose proof (proj1 (Forall_forall _ _) Hrest r Hr') as Hro.
-          destruct Hro as [b' [l0 [v' [x' [E' [Hb' [Hl' [Hv' [Hmv' [Hok' [Hle' [Hkb' [Hbx' Hr'']]]]]]]]]]]]].
-          exists b', l0, v', x'. repeat (split; try assumption).
+          destruct Hro as (b' & l0 & v' & x' & k' & E' & Hb' & Hl' & Hv' & Hmv' & Hok' & Hle' & Hkb' & Hbx' & Hr'' & Hc').
+          exists b', l0, v', x', k'. repeat (split; try assumption); [|lia].
           pose proof (Hmin r (proj1 (in_pop _ _ _ r HP) Hr')) as Hm. rewrite E' in Hm.
-          apply (le_key_mkrow b b' l l0 v v' Hb Hb') in Hm. exact Hm.
+          assert (HEb' : EV b') by (rewrite <- Hbx'; apply (H_E _ _ _ _ Hr''); lia).
+          apply (K_le b b' l l0 v v' Hb Hb' HEb HEb') in Hm. exact Hm.
         - intros a Ha Hma Hla Hoka. assert (Hav : a <> v) by (intros ->; lia).
           rewrite (Go a Ha Hav) in Hla. destruct (Hpend a Ha Hma Hla Hoka) as [la Hina]. exists la.
           destruct (proj2 (in_pop _ _ _ _ HP) Hina) as [E|E]; [|exact E].
-          exfalso. apply (mkrow_inj _ _ _ _ _ _ Hoka Hb) in E. destruct E as [_ [_ E]]. contradiction.
+          exfalso. apply mkrow_pixel in E. contradiction.
         - intros a Ha Hla. destruct (pair_eq_dec a v) as [->|Hav].
           + unfold fin_ok. rewrite Gs. split; [exact Hmv|]. split; [exact Hok|]. split; [unfold bitsD, d0 in *; lia|].
-            exists x. split; [unfold bitsD, d0 in *; lia | exact Hr].
-          + rewrite (Go a Ha Hav) in Hla. destruct (Hfin a Ha Hla) as [A [B [C [y [D E]]]]].
-            unfold fin_ok. rewrite (Go a Ha Hav). split; [exact A|]. split; [exact B|]. split; [lia|]. exists y. auto.
+            exists x, kx. split; [unfold bitsD, d0 in *; lia|]. split; [exact Hr | lia].
+          + rewrite (Go a Ha Hav) in Hla. destruct (Hfin a Ha Hla) as [A [B [C [y [ky [D [F G]]]]]]].
+            unfold fin_ok. rewrite (Go a Ha Hav). split; [exact A|]. split; [exact B|]. split; [lia|].
+            exists y, ky. split; [exact D|]. split; [exact F | lia].
         - intros a w Ha Hla Hav. rewrite (Go a Ha Hav) in Hla. apply Hnbr; assumption.
         - reflexivity.
         - intros o [].
       }
-      assert (Hux : exists x0, bitsD x0 = bitsD d0 /\ reachL v x0 l) by (exists x; split; [unfold bitsD, d0 in *; lia | exact Hr]).
+      assert (Hux : exists x0 k0, bitsD x0 = bitsD d0 /\ reachL v x0 l k0 /\ (S k0 + c1 <= M)%nat).
+      { exists x, kx. split; [unfold bitsD, d0 in *; lia|]. split; [exact Hr | lia]. }
       assert (Hlab1 : forall a, PropDijkstra.inr m n a -> 0 <= Lv lab1 a).
       { intros a Ha. destruct (pair_eq_dec a v) as [->|Hav]; [rewrite Gs; lia | rewrite (Go a Ha Hav); apply Hlab; exact Ha]. }
-      assert (Hk0' : 0 <= b) by (destruct Hb; lia).
       assert (Hshl1 : shape lab1 m n) by (apply set2_shape; [exact Hshl | destruct Hv; assumption]).
-      pose proof (relax_fold_opt b lab1 v d0 l Hlab1 Hv Gs Hl Hok (eq_sym Hbe) Hux offsets8 _ _ _ (incl_refl _) HPRE) as HF2.
-      destruct (fold_left (relax Full64 image mask m n weight lab1 l (fst v) (snd v) d0) offsets8 (s_dist st, hp1))
+      pose proof (relax_fold_opt b lab1 v d0 l c1 Hlab1 Hv Gs Hl Hok (eq_sym Hbe) Hux offsets8 _ _ _ (incl_refl _) HPRE) as HF2.
+      destruct (fold_left (relax key image mask m n weight lab1 l (fst v) (snd v) d0) offsets8 (s_dist st, hp1))
         as [dist1 hp2] eqn:Hfold.
-      cbn [fst snd] in HF2. destruct HF2 as [A1 A2 A3 A4 A5 A6 A7 A8 A9 A10].
+      cbn [fst snd] in HF2. destruct HF2 as [A1 A2 A3 A3' A4 A5 A6 A7 A8 A9 A10].
       apply (IH (mkst lab1 dist1 hp2) st' b); [|exact HL]. cbn [s_lab s_dist s_hp].
       constructor; try assumption.
-      intros a w Ha Hla Hadj Hw Hmw. destruct (pair_eq_dec a v) as [->|Hav]; [|apply A7; assumption].
-      destruct Hadj as [o [Ho ->]]. apply A9; [left; exact Ho | exact Hw | exact Hmw].
+      * destruct Hb; lia.
+      * intros a w Ha Hla Hadj Hw Hmw. destruct (pair_eq_dec a v) as [->|Hav]; [|apply A7; assumption].
+        destruct Hadj as [o [Ho ->]]. apply A9; [left; exact Ho | exact Hw | exact Hmw].
     + (* stale row of an already finalised pixel: dropped *)
       assert (Hlvn : Lv (s_lab st) v <> 0) by lia.
       apply (IH (mkst (s_lab st) (s_dist st) hp1) st' kstar); [|exact HL]. cbn [s_lab s_dist s_hp].
       constructor; try assumption.
       intros a Ha Hma Hla Hoka. destruct (Hpend a Ha Hma Hla Hoka) as [la Hina]. exists la.
       destruct (proj2 (in_pop _ _ _ _ HP) Hina) as [E|E]; [|exact E].
-      exfalso. apply (mkrow_inj _ _ _ _ _ _ Hoka Hb) in E. destruct E as [_ [_ E]]. subst a. contradiction.
+      exfalso. apply mkrow_pixel in E. subst a. contradiction.
 Qed.
 
 (* ---------- initial state ---------- *)
@@ -349,7 +374,7 @@ Lemma init_INV :
   let pq := flat_map (fun ij : Z * Z =>
                         let l := get2 0 labels (fst ij) (snd ij) in
                         if negb (l =? 0) && get2 false mask (fst ij) (snd ij)
-                        then [[most_sig kb; least_sig Full64 kb; l; fst ij; snd ij]] else [])
+                        then [[most_sig kb; least_sig key kb; l; fst ij; snd ij]] else [])
                      (coords m n) in
   INV 0 lab0 dist0 (heap_from_rows pq).
 Proof.
@@ -359,7 +384,7 @@ Proof.
     exact (get2_map2 m n _ _ (fun l : Z => if 0 <? l then PrimFloat.zero else neg_one) labels a b 0 PrimFloat.zero Hshape Hv). }
   assert (GL : forall v, inr v -> Lv lab0 v = 0).
   { intros [a b] Hv. unfold lab0. cbn [fst snd]. exact (get2_map2 m n _ _ (fun _ : Z => 0) labels a b 0 0 Hshape Hv). }
-  assert (Hpq : forall r, In r pq <-> exists v, inr v /\ labv v <> 0 /\ maskv v /\ r = mkrow 0 (labv v) v).
+  assert (Hpq : forall r, In r pq <-> exists v, inr v /\ labv v <> 0 /\ maskv v /\ r = mkrow key 0 (labv v) v).
   { intros r. unfold pq. rewrite in_flat_map. split.
     - intros [[a b] [Hc Hr]]. apply coords_In in Hc. cbn [fst snd] in Hr.
       destruct (negb (get2 0 labels a b =? 0) && get2 false mask a b) eqn:E; [|destruct Hr].
@@ -369,6 +394,7 @@ Proof.
     - intros [[a b] [Hv [Hl [Hm ->]]]]. exists (a, b). split; [apply coords_In; destruct Hv; cbn [fst snd] in *; lia|].
       cbn [fst snd]. unfold PropDijkstra.labv, PropDijkstra.maskv in *. cbn [fst snd] in *.
       rewrite Hm. replace (negb (get2 0 labels a b =? 0)) with true by lia. left. reflexivity. }
+  assert (Hc0 : count0 lab0 = M) by (unfold lab0, M; apply count0_zero_map; exact Hshape).
   constructor.
   - lia.
   - apply map2_shape. exact Hshape.
@@ -376,11 +402,12 @@ Proof.
   - intros v Hv. rewrite (GL v Hv). lia.
   - intros v Hv. rewrite (GD v Hv). destruct (0 <? labv v); [right; apply okF_zero | left; reflexivity].
   - intros v Hv Hs. rewrite (GD v Hv). replace (0 <? labv v) with true by lia. reflexivity.
+  - intros v Hv Hok. rewrite (GD v Hv) in *. destruct (0 <? labv v); [rewrite bits_zero; exact E0 | exfalso; exact (not_okF_neg_one Hok)].
   - unfold heap_from_rows. cbn [rows]. apply Forall_forall. intros r Hr. apply Hpq in Hr.
     destruct Hr as [v [Hv [Hl [Hm ->]]]]. pose proof (L_nonneg v Hv) as H0.
     assert (Hpos : 0 < labv v) by lia.
     assert (ED : Dv dist0 v = PrimFloat.zero) by (rewrite (GD v Hv); replace (0 <? labv v) with true by lia; reflexivity).
-    exists 0, (labv v), v, PrimFloat.zero. rewrite ED, bits_zero.
+    exists 0, (labv v), v, PrimFloat.zero, O. rewrite ED, bits_zero.
     repeat (split; try assumption); try lia; try apply okF_zero; try (unfold ok64, bits_inf; lia); try exact bits_zero.
     apply rl_seed; assumption.
   - intros v Hv Hm _ Hok. rewrite (GD v Hv) in *. destruct (0 <? labv v) eqn:E; [|exfalso; apply not_okF_neg_one; exact Hok].
@@ -389,32 +416,32 @@ Proof.
   - intros u Hu Hne. rewrite (GL u Hu) in Hne. contradiction.
   - intros u w Hu Hne. rewrite (GL u Hu) in Hne. contradiction.
   - unfold heap_from_rows. cbn [rows]. apply (heap_weak_inv_init pq (0, 0)). intros r Hr. apply Hpq in Hr.
-    destruct Hr as [v [_ [_ [_ ->]]]]. reflexivity.
+    destruct Hr as [v [_ [_ [_ ->]]]]. destruct key; reflexivity.
 Qed.
 
 (* ---------- the theorem ---------- *)
-Theorem dijkstra_optimal_full64_sec : forall lo d,
-  propagate Full64 image labels mask m n weight = Some (lo, d) ->
+Theorem dijkstra_optimal_sec : forall lo d,
+  propagate key image labels mask m n weight = Some (lo, d) ->
   forall v, inr v -> labv v = 0 ->
-    (forall x l, reachL v x l -> okF (Dv d v) /\ bitsD (Dv d v) <= bitsD x) /\
-    (okF (Dv d v) -> exists x, bitsD x = bitsD (Dv d v) /\ reachL v x (get2 0 lo (fst v) (snd v))) /\
+    (forall x l k, reachL v x l k -> okF (Dv d v) /\ bitsD (Dv d v) <= bitsD x) /\
+    (okF (Dv d v) -> exists x k, bitsD x = bitsD (Dv d v) /\ reachL v x (get2 0 lo (fst v) (snd v)) k) /\
     (Dv d v = neg_one \/ okF (Dv d v)).
 Proof.
   intros lo d HP v Hv Hl0. pose proof HP as HP0. unfold propagate in HP.
   match type of HP with context [loop _ _ _ _ _ _ ?fuel ?st0] =>
-    destruct (loop Full64 image mask m n weight fuel st0) as [st ok] eqn:HL; set (S0 := st0) in * end.
+    destruct (loop key image mask m n weight fuel st0) as [st ok] eqn:HL; set (S0 := st0) in * end.
   destruct ok; [|discriminate]. inversion HP. subst lo d. clear HP.
   pose proof init_INV as HI0. cbv zeta in HI0.
   destruct (loop_opt _ S0 st 0 HI0 HL) as [k [HI Hempty]].
-  destruct HI as [Hk0 Hshl Hshd Hlab Hb1 Hbs Hrw Hpend Hfin Hnbr Hheap].
+  destruct HI as [Hk0 Hshl Hshd Hlab Hb1 Hbs Heven Hrw Hpend Hfin Hnbr Hheap].
   (* every masked pixel with a distance is finalised *)
   assert (Hdone : forall a, inr a -> maskv a -> okF (Dv (s_dist st) a) -> Lv (s_lab st) a <> 0).
-  { intros a Ha Hma Hoka E. destruct (Hpend a Ha Hma E Hoka) as [l' Hin]. rewrite Hempty in Hin. destruct Hin. }
+  { intros a Ha Hma Hoka Ez. destruct (Hpend a Ha Hma Ez Hoka) as [l' Hin]. rewrite Hempty in Hin. destruct Hin. }
   (* potential: no relaxable edge at termination *)
-  assert (Hpot : forall a x l, reachL a x l -> okF (Dv (s_dist st) a) /\ bitsD (Dv (s_dist st) a) <= bitsD x).
-  { induction 1 as [s Hi Hls Hm | a b x l H IH Hadj Hi Hm].
+  assert (Hpot : forall a x l k0, reachL a x l k0 -> okF (Dv (s_dist st) a) /\ bitsD (Dv (s_dist st) a) <= bitsD x).
+  { induction 1 as [s Hi Hls Hm | a b x l k0 H IH Hadj Hi Hm].
     - rewrite (Hbs s Hi Hls). split; [apply okF_zero | lia].
-    - destruct IH as [Hoka Hlea]. destruct (reachL_facts _ _ _ H) as [Ha [Hma [Hxok _]]].
+    - destruct IH as [Hoka Hlea]. destruct (reachL_facts _ _ _ _ H) as [Ha [Hma [Hxok _]]].
       pose proof (Hdone a Ha Hma Hoka) as Hfa.
       destruct (Hnbr a b Ha Hfa Hadj Hi Hm) as [Hokb Hleb]. split; [exact Hokb|].
       pose proof (F_mono (stepF a b) (Dv (s_dist st) a) x (W_ok a b Ha Hi Hadj) Hoka Hxok Hlea). lia. }
@@ -424,16 +451,16 @@ Proof.
     by (destruct v; exact Hv).
   cbn [fst snd]. unfold PropDijkstra.labv in Hl0. rewrite Hl0. change (0 <? 0) with false. cbv iota.
   (* v has a distance: it is masked (an unmasked non-seed pixel is never written) *)
-  destruct (Lv (s_lab st) v =? 0) eqn:E.
-  - exfalso. assert (E0 : Lv (s_lab st) v = 0) by lia.
+  destruct (Lv (s_lab st) v =? 0) eqn:Ez.
+  - exfalso. assert (Ez0 : Lv (s_lab st) v = 0) by lia.
     (* dist ok but never finalised: impossible for masked pixels; unmasked pixels keep -1 by dijkstra_sound *)
-    pose proof (dijkstra_sound Full64 image labels mask m n weight _ _ Hshape L_nonneg HP0 v Hv) as DS. cbv zeta in DS.
+    pose proof (dijkstra_sound key image labels mask m n weight _ _ Hshape L_nonneg HP0 v Hv) as DS. cbv zeta in DS.
     destruct DS as [D1|[[_ D2]|D3]].
     + rewrite D1 in Hok. exact (not_okF_neg_one Hok).
     + unfold PropDijkstra.labv in D2. lia.
     + assert (Hmv : maskv v).
       { inversion D3 as [s Hi Hls Hm | a b x H Hadj Hi Hm]; subst; [unfold PropDijkstra.labv in Hls; lia | exact Hm]. }
-      exact (Hdone v Hv Hmv Hok E0).
-  - assert (Hne : Lv (s_lab st) v <> 0) by lia. destruct (Hfin v Hv Hne) as [_ [_ [_ Hx]]]. exact Hx.
+      exact (Hdone v Hv Hmv Hok Ez0).
+  - assert (Hne : Lv (s_lab st) v <> 0) by lia. destruct (Hfin v Hv Hne) as [_ [_ [_ [x [kx [Hx1 [Hx2 _]]]]]]]. exists x, kx. split; assumption.
 Qed.
 End Opt.
